@@ -70,7 +70,7 @@ def prims():
 def gen_program(c, max_ops):
     n_in = c.int(1, 3)
     n_ops = c.int(1, max_ops)
-    form = c.choice(["array", "tuple"])
+    form = c.choice(["array", "tuple", "seq_tuple", "seq_list"])  # seq_*: ONE argument that is a tuple / list of the inputs
     stmts = []
     nvals = n_in
 
@@ -90,6 +90,15 @@ def gen_program(c, max_ops):
 
     for _ in range(n_ops):
         k = c.int(0, 12)
+        if k == 11 and form.startswith("seq"):
+            # the argument container is consumed through a slice (whose elements are then used) AND directly through an element, in either
+            # order of creation: two consumers of one container value whose cotangents meet in the container's accumulator
+            lo = c.int(0, n_in - 1)
+            hi = c.int(lo + 1, n_in)
+            idxs = [c.int(0, hi - lo - 1) for _ in range(c.int(1, 3))]
+            stmts.append(["tslice", lo, hi, idxs, [c.choice([1.0, -0.5, 2.0, 0.25]) for _ in idxs], c.int(0, n_in - 1), c.choice([1.5, -2.0, 0.75]), c.bool()])
+            nvals += 1
+            continue
         if k == 11:
             if form != "array":
                 continue
@@ -157,6 +166,9 @@ def interpret(prog, inputs, be):
             trace.append(("if", st[1], bool(taken)))
             name, srcs = st[3] if taken else st[4]
             vals.append(call(name, srcs))
+        elif kind == "tslice":
+            trace.append(("tslice",) + tuple(map(str, st[1:])))
+            vals.append(be.tslice(*st[1:]))
         elif kind == "gather":
             trace.append(("gather", tuple(st[1]), st[3]))
             vals.append(be.gather(st[1], st[2], st[3]))
@@ -237,6 +249,19 @@ class AGBackend:
         else:
             sel = anp.reshape(x, (1, -1))[[0] * len(idxs), idxs]
         return anp.sum(anp.ravel(sel) * onp.array(coefs))
+
+    def tslice(self, lo, hi, idxs, coefs, j, cj, slice_first):
+        t = self.x
+        if slice_first:
+            sl = t[lo:hi]
+            e = t[j]
+        else:
+            e = t[j]
+            sl = t[lo:hi]
+        acc = cj * e
+        for i, cf in zip(idxs, coefs):
+            acc = acc + cf * sl[i]
+        return acc
 
     def ckpt(self, name, a, b, steps, residual):
         import autograd
@@ -319,6 +344,10 @@ class RefBackend:
         value = sum(cf * T.val(self.inputs[i]) for i, cf in zip(idxs, coefs))
         return self.tape.apply(("gather", None), value, [(self.inputs[i], cf) for i, cf in zip(idxs, coefs)])
 
+    def tslice(self, lo, hi, idxs, coefs, j, cj, slice_first):
+        terms = [(self.inputs[j], cj)] + [(self.inputs[lo + i], cf) for i, cf in zip(idxs, coefs)]
+        return self.tape.apply(("tslice", None), sum(cf * T.val(a) for a, cf in terms), terms)
+
     def ckpt(self, name, a, b, steps, residual):
         acc = a
         for _ in range(steps):
@@ -397,7 +426,7 @@ def body(max_ops, c):
     multi = any(len({p for p, _ in ps if p is not None}) < len([p for p, _ in ps if p is not None]) for _, ps, _ in rb.tape.entries)
     fan = any(n >= 2 and live[i] for i, n in uses.items())
     dead = any(dep[i] and not live[i] for i in range(len(live)))
-    ctrl = any(t[0] in ("if", "loop", "rec", "closure", "gather", "ckpt") for t in rtrace)
+    ctrl = any(t[0] in ("if", "loop", "rec", "closure", "gather", "ckpt", "tslice") for t in rtrace)
     labels = [l for l, on in (("multi_edge", multi), ("fan_out", fan), ("dead_op", dead), ("control_flow", ctrl)) if on]
     labels.append("form=" + prog["form"])
     nontrivial = bool(multi or fan or dead or ctrl)
@@ -418,6 +447,15 @@ def body(max_ops, c):
         mk_jvp = lambda v: autograd.make_jvp(f)(x0)(v)
         basis = [onp.eye(n_in)[i] for i in range(n_in)]
         unpack = lambda g: [float(t) for t in onp.asarray(g)]
+    elif prog["form"].startswith("seq"):
+        def f(t):
+            ab.x = t
+            return interpret(prog, [t[i] for i in range(n_in)], ab)[0]
+        x0 = tuple(xs) if prog["form"] == "seq_tuple" else list(xs)
+        mk_vjp = lambda: autograd.make_vjp(f)(x0)
+        mk_jvp = lambda v: autograd.make_jvp(f)(x0)(type(x0)(v))
+        basis = [tuple(1.0 if j == i else 0.0 for j in range(n_in)) for i in range(n_in)]
+        unpack = lambda g: [float(t) for t in g]
     else:
         def f(*a):
             return interpret(prog, list(a), ab)[0]
